@@ -670,6 +670,14 @@ def malformations(b, marks, rng, budget=None):
         out.append(b[:c])
     for (pos, w, kind) in marks:
         v = int.from_bytes(b[pos:pos + w], "big")
+        if kind == "rdlen":
+            # every shorter RDLENGTH with the RDATA cut accordingly: the typed parser sees a short but framed RDATA
+            ns = list(range(v))
+            if len(ns) > 48:
+                rng.shuffle(ns)
+                ns = sorted(ns[:40]) + list(range(v - 8, v))
+            for n in ns:
+                out.append(b[:pos] + n.to_bytes(2, "big") + b[pos + 2:pos + 2 + n] + b[pos + 2 + v:])
         for d in (1, -1):
             nv = (v + d) % (1 << (8 * w))
             out.append(b[:pos] + nv.to_bytes(w, "big") + b[pos + w:])
